@@ -1,27 +1,58 @@
-"""C19 - host actuator invariants under every history (TEMPORARY single-unit driver of the
-C19_led work package; the integrator replaces it by the driver that runs all units)."""
+"""C19 - host actuator models keep their invariants under every operation history.
+
+Runs the three units of the property (Led + RGBLed, Servo, DCMotor), each with its own Coq
+theorems (coq/Props/<unit>.v), extracted model (coq/Wire/<unit>W.v), implementation runner and
+property oracle, and merges their coverage into one evidence file."""
 from __future__ import annotations
 
 from harness import common as C
-from harness.props import c19_led
+from harness.props import c19_led, c19_motor, c19_servo
 
-UNITS = ["C19_led"]
+UNITS = ["C19_led", "C19_servo", "C19_motor"]
+MODS = {"C19_led": c19_led, "C19_servo": c19_servo, "C19_motor": c19_motor}
 
 META = {
     "id": "C19",
-    "technique": "Coq proof (induction over operation sequences of hand-written Gallina models of the host actuator classes) + extracted-model correspondence with the real classes + property oracle on the real objects",
-    "level_text": c19_led.META_PART,
-    "level_note": "Trusted: Coq kernel, extraction (ExtrOcamlBasic), OCaml driver, the implementation runners and value comparison. The theorems are about the models; the correspondence check bounds their distance from the Python classes.",
+    "technique": "Coq proof (invariants by induction over all operation histories of hand-written Gallina models of the four host actuator classes) + extracted-model correspondence with the real classes + property oracle on the real objects",
+    "level_text": " ".join(MODS[u].META_PART for u in UNITS),
+    "level_note": "Trusted: Coq kernel, the translator plug-ins (harness/gen/signatures.py, harness/gen/c19_motor.py), extraction (ExtrOcamlBasic), OCaml driver, the implementation runners that wrap the real classes and the value comparison. The theorems are about the models (floats = exact rationals); the correspondence check bounds their distance from the Python classes to 1e-9 on the generated inputs.",
     "design_ref": "DESIGN.md section 4 C19, Appendix A.1-A.4, A.7",
 }
 
 
 def run(ctx: C.Ctx):
-    part = c19_led.run_unit(ctx)
-    ctx.coverage.update({k: v for k, v in part.items() if k not in ("trusted_base", "assumptions")})
-    ctx.coverage["trusted_base"] = C.COMMON_TRUSTED + part["trusted_base"]
-    ctx.assumptions += part["assumptions"]
+    parts = {}
+    for u in UNITS:
+        try:
+            parts[u] = MODS[u].run_unit(ctx)
+        except Exception as e:  # one unit blowing up must not hide what the others found
+            import traceback
+            ctx.disagree(f"{u}: harness exception {type(e).__name__}: {e}", None, None, traceback.format_exc()[-2000:])
+    cov = ctx.coverage
+    cov["evaluations"] = sum(p["evaluations"] for p in parts.values())
+    cov["distinct_nontrivial"] = sum(p["distinct_nontrivial"] for p in parts.values())
+    cov["rule"] = "  ||  ".join(f"[{u}] {p['rule']}" for u, p in parts.items())
+    cov["samples"] = [{"unit": u, "sample": s} for u, p in parts.items() for s in p["samples"][:3]]
+    cov["distribution"] = {u: p["distribution"] for u, p in parts.items()}
+    cov["guard"] = "  ||  ".join(f"[{u}] {p['guard']}" for u, p in parts.items())
+    cov["unmodelled"] = [f"[{u}] {x}" for u, p in parts.items() for x in p["unmodelled"]]
+    cov["units"] = {u: {"evaluations": p["evaluations"], "distinct_nontrivial": p["distinct_nontrivial"]} for u, p in parts.items()}
+    trusted = list(C.COMMON_TRUSTED)
+    for p in parts.values():
+        for t in p["trusted_base"]:
+            if t not in trusted:
+                trusted.append(t)
+    cov["trusted_base"] = trusted
+    for p in parts.values():
+        for a in p["assumptions"]:
+            if a not in ctx.assumptions:
+                ctx.assumptions.append(a)
 
 
 def replay(data):
-    return c19_led.replay_unit(data)
+    rc = 0
+    for u in UNITS:
+        rc = max(rc, MODS[u].replay_unit(data) or 0)
+    if rc == 0:
+        print("not reproduced on the current tree")
+    return rc
